@@ -109,6 +109,16 @@ CHECKS = {
          "interpreter is executed and the triple (exit status, stderr, output state and byte hash) is validated by TLC.",
     note="a CLI-only failure with non-zero status and message is allowed by the statement; subprocesses run with one BLAS thread",
     technique="TLA+ model (Cli.tla) checked with TLC + TLC validation of differential CLI / convert() / API executions"),
+ "C20": dict(
+    category="model_checking", design_ref="DESIGN.md section 6 C20",
+    text="TLC runs the congruence machine (D,S)->(E D E^T, E^-T S E^-1) over integer matrices of size 2 (quick) / 3 (thorough) "
+         "checking SpectrumInvariant and StaysSymmetric in every state, and the orbit-closure, Gram-determinant invariance and "
+         "vocabulary laws; the real set_four_index_element (every quadruple n<=4/6), strtobool (all case variants + other strings), "
+         "volume (all 1-3 integer vectors in -2..2) and derive_naturals/check_dm (states of TLC-simulated behaviours and "
+         "block-diagonal compositions up to size 12) are executed and validated by TLC against Orbit, StrToBool, GramDet and the "
+         "carried spectrum.",
+    note="floating-point closeness of the eigenproblem results is decided by the harness with scale-relative tolerances; TLC decides the discrete relations and that the claimed spectrum belongs to the integer matrices",
+    technique="TLA+ model (Kernels.tla) checked with TLC + replay of TLC-generated machine states and TLC validation of recorded helper calls"),
 }
 NOT_YET = "check not built yet in this round (planned, see DESIGN.md section 6)"
 
